@@ -39,7 +39,7 @@ Step ==
        IF e.e = "reset" THEN
             /\ m' = InitModel(SeqRange(e.keys), e.cfg.policy, e.cfg.L, e.cfg.limit)
             /\ dead' = FALSE /\ hist' = e.h /\ UNCHANGED <<drift, matched>>
-       ELSE IF dead THEN UNCHANGED <<m, dead, drift, hist, matched>>
+       ELSE IF dead \/ e.e \notin {"tick", "cmd"} THEN UNCHANGED <<m, dead, drift, hist, matched>>
        ELSE IF e.e = "tick" THEN m' = [m EXCEPT !.now = e.to] /\ UNCHANGED <<dead, drift, hist, matched>>
        ELSE LET outs == ExecSet(m, e)
                 ok == {o \in outs : SameResp(e, o.r) /\ SamePhys(o.m, e)}
